@@ -195,9 +195,6 @@ Section Agree.
     constructor; [exact Hn|apply IH; exact Hr].
   Qed.
 
-  Lemma unpinned_frag : forall t d, frag t = true -> unpinned_null d t = false.
-  Proof. induction t; intros d H; simpl in *; try reflexivity; try discriminate. apply IHt. exact H. Qed.
-
   Lemma bind_elems_ext : forall (f g : jv -> val -> res val) z l old,
     Forall (fun x => forall v, f x v = g x v) l -> bind_elems f z l old = bind_elems g z l old.
   Proof.
@@ -256,7 +253,6 @@ Section Agree.
         apply Forall_firstn. apply elems_agree; auto; [apply (strict_arr _ _ S)|apply (guards_arr _ _ G)].
       + (* TMap *) intros k e _ F. discriminate.
       + (* TPtr *) intros e IH F j v S G. simpl in F. step.
-        rewrite (unpinned_frag e 1 F).
         destruct j; try reflexivity; rewrite IH by assumption; reflexivity.
       + (* TStruct *) intros fs IH F j v S G. simpl in F. apply andb_prop in F as [Ff Fn].
         destruct j; try reflexivity. step.
